@@ -50,6 +50,8 @@ type runStat struct {
 	Reopens        int    `json:"reopens"`
 	Roots          int    `json:"distinctRoots"`
 	RootRepeats    int    `json:"stagesHittingKnownRoot"`
+	BlindObjects   int    `json:"blindStateObjects"`
+	BlindWrites    int    `json:"blindStorageWrites"`
 	EncodeWrites   int    `json:"encodeStorageWrites"`
 	SideOps        int    `json:"logTransferRefundOps"`
 	SideReverted   int    `json:"revertsDroppingLogs"`
@@ -71,6 +73,9 @@ type book struct {
 	delLvl  []int        // checkpoint depth at which each not-yet-reverted Delete happened
 	logLvl  []int        // checkpoint depth at which each not-yet-reverted log/transfer/refund was journaled
 	depth   int
+	// blind: no storage getter and no BuildStorageTrie is called on this State object before its first Stage, so that
+	// Stage has to open the base storage tries itself (native builtin code writes slots it never read)
+	blind bool
 }
 
 func newBook() book { return book{deleted: map[int]bool{}, depth: 1} }
@@ -128,6 +133,9 @@ func (r *recorder) keysOf(a int) []int {
 // reads of one address: all getters, the given keys
 func (r *recorder) readOne(a int, keys []int) (map[string]any, bool) {
 	qt, qs := r.rng.Intn(5), r.rng.Intn(5)
+	if r.blind {
+		keys = nil
+	}
 	rd, err := r.w.read(a, keys, qt, qs)
 	if err != nil {
 		r.fail("getter", err)
@@ -227,6 +235,9 @@ func (r *recorder) apply(o op) {
 		w.addRefund(o.v)
 		ev["v"] = o.v
 	case "BuildStorageTrie":
+		if r.blind {
+			return
+		}
 		h, berr := w.buildStorageRoot(o.a)
 		if berr != nil {
 			r.fail("BuildStorageTrie", berr)
@@ -312,6 +323,7 @@ func (r *recorder) apply(o op) {
 			r.fail("Stage", serr)
 			return
 		}
+		r.blind = false
 		name := r.roots.Name(h[:])
 		ev["root"], ev["maj"], ev["min"] = name, ver.Major, ver.Minor
 		r.st.Stages++
@@ -336,6 +348,10 @@ func (r *recorder) apply(o op) {
 		ev["ci"], ev["root"] = o.v, r.roots.Name(root.Hash[:])
 		r.st.Reopens++
 		r.book = newBook()
+		if o.t == 1 {
+			r.blind = true
+			r.st.BlindObjects++
+		}
 		full = true
 	default:
 		panic("HARNESS: unknown op " + o.name)
@@ -349,6 +365,9 @@ func (r *recorder) apply(o op) {
 			r.st.Recreates++
 		}
 		r.touch(o.a, o.k)
+	}
+	if r.blind && (o.name == "SetStorage" || o.name == "SetRawStorage" || o.name == "EncodeStorage") {
+		r.st.BlindWrites++
 	}
 	if (o.name == "SetStorage" || o.name == "SetRawStorage" || o.name == "EncodeStorage") && o.v == 0 {
 		r.st.ZeroWrites++
@@ -455,6 +474,17 @@ func (r *recorder) partC(na int) {
 			r.apply(op{name: "Delete", a: a})
 		}
 	}
+	// a contract with committed storage that both siblings are going to write
+	ca := 1
+	r.apply(op{name: "SetBalance", a: ca, v: 1})
+	r.apply(op{name: "SetStorage", a: ca, k: 1, v: 11})
+	r.apply(op{name: "Stage"})
+	r.apply(op{name: "Commit"})
+	if r.failed {
+		return
+	}
+	parent = len(r.w.commits)
+	r.apply(op{name: "Reopen", v: parent})
 	for i, n := 0, 1+r.rng.Intn(6); i < n; i++ {
 		write()
 	}
@@ -471,6 +501,12 @@ func (r *recorder) partC(na int) {
 	if r.cur != 1 {
 		r.apply(op{name: "Switch", t: 1})
 	}
+	r.apply(op{name: "SetBalance", a: ca, v: 1})
+	r.apply(op{name: "SetStorage", a: ca, k: 2, v: 21})
+	r.apply(op{name: "Switch", t: 2})
+	r.apply(op{name: "SetBalance", a: ca, v: 1})
+	r.apply(op{name: "EncodeStorage", a: ca, k: 2, v: 22})
+	r.apply(op{name: "Switch", t: 1})
 	va, vb := r.w.d.siblingVers()
 	r.apply(op{name: "Stage", ver: &va}) // state 1 at (major, 0)
 	r.apply(op{name: "Switch", t: 2})
@@ -486,6 +522,19 @@ func (r *recorder) partC(na int) {
 	}
 	// state 2 stays alive; state 1's object is replaced by re-opened ones
 	r.apply(op{name: "Reopen", v: c1})
+	// on top of the sibling committed with conflict number 1 (the conflict-0 sibling wrote the same contract): a State
+	// object that writes the contract's storage without ever reading it, staged, committed, read back
+	r.apply(op{name: "Reopen", v: c2, t: 1})
+	r.apply(op{name: []string{"SetStorage", "SetRawStorage", "EncodeStorage"}[r.rng.Intn(3)], a: ca, k: 3, v: 31})
+	for i, n := 0, r.rng.Intn(4); i < n; i++ {
+		write()
+	}
+	r.apply(op{name: "Stage"})
+	r.apply(op{name: "Commit"})
+	if r.failed {
+		return
+	}
+	r.apply(op{name: "Reopen", v: len(r.w.commits)})
 	r.apply(op{name: "Reopen", v: c2})
 	r.apply(op{name: "Switch", t: 2}) // the live sibling after the other one's commit and the re-opens
 	for i, n := 0, 1+r.rng.Intn(8); i < n; i++ {
@@ -566,13 +615,13 @@ func (r *recorder) partA(nOps, na int) {
 			r.apply(op{name: "Stage"})
 			r.apply(op{name: "Commit"})
 			if r.rng.Intn(3) > 0 && !r.failed {
-				r.apply(op{name: "Reopen", v: len(r.w.commits)})
+				r.apply(op{name: "Reopen", v: len(r.w.commits), t: r.rng.Intn(3) / 2}) // every third one blind
 				recent = nil
 			}
 		default:
 			if n := len(r.w.commits); n > 0 {
 				// an older root: the next commit becomes a sibling version of what was committed after it
-				r.apply(op{name: "Reopen", v: 1 + r.rng.Intn(n)})
+				r.apply(op{name: "Reopen", v: 1 + r.rng.Intn(n), t: r.rng.Intn(3) / 2})
 				recent = nil
 			}
 		}
